@@ -64,7 +64,7 @@ def one(d):
 def main():
     jobs = int(sys.argv[sys.argv.index("--jobs") + 1]) if "--jobs" in sys.argv else 3
     only = set(sys.argv[sys.argv.index("--only") + 1].split(",")) if "--only" in sys.argv else None
-    dirs = [d for d in sorted(glob.glob(os.path.join(HERE, "seeded", "[CFGHSTUVW]*"))) if os.path.exists(os.path.join(d, "patch.diff")) and (only is None or os.path.basename(d) in only)]
+    dirs = [d for d in sorted(glob.glob(os.path.join(HERE, "seeded", "[CFGHSTUVWX]*"))) if os.path.exists(os.path.join(d, "patch.diff")) and (only is None or os.path.basename(d) in only)]
     with ThreadPoolExecutor(max_workers=jobs) as ex:
         for name, caught, rec in ex.map(one, dirs):
             print(name, "caught by", caught or "NOTHING", "| demo", rec["demo_on_clean_tree_rc"], rec["demo_with_change_rc"], "suite", rec["baseline_suite_unchanged"], flush=True)
